@@ -24,7 +24,7 @@ except Exception:                                    # pragma: no cover
     content_mod = None
 
 CACHES = [1, 3, 4, 8, 32, 128]
-RUN_TIMEOUT = 30            # seconds; a normal run takes 0.1 - 1.5 s
+RUN_TIMEOUT = 12            # seconds; a normal run takes 0.1 - 1.5 s
 LEVELS = ["parity", "2-parity", "3-parity", "4-parity", "5-parity", "6-parity"]
 TAGS = ("error:", "parity_error:", "summary:", "fixed:", "unrecoverable:", "block_count:", "info_count:",
         "outofparity:")
@@ -95,11 +95,17 @@ def run_snap(binary, root, cache, cmd, log, trace=None, yseed=None, sigint_after
     args = snap_args(binary, root, cache, (["--test-cond-signal-outside"] if outside else []) + cmd, log)
     p = subprocess.Popen(args, stdout=subprocess.PIPE, stderr=subprocess.STDOUT, env=env)
     if sigint_after is not None:
-        time.sleep(sigint_after)
-        try:
-            p.send_signal(signal.SIGINT)
-        except ProcessLookupError:
-            pass
+        # early stop request: SIGINT once the trace has reached the given size, i.e. inside the stripe loop
+        # (before signal_init() the default action would just kill the process)
+        t0 = time.time()
+        while p.poll() is None and time.time() - t0 < RUN_TIMEOUT:
+            try:
+                if os.path.getsize(trace) >= sigint_after:
+                    p.send_signal(signal.SIGINT)
+                    break
+            except OSError:
+                pass
+            time.sleep(0.0005)
     try:
         out, _ = p.communicate(timeout=RUN_TIMEOUT)
         return p.returncode, False, out.decode(errors="replace")
@@ -155,16 +161,13 @@ def norm_content(path, tbase):
     for p in cs.get("parity", []):
         p.pop("total", None), p.pop("free", None)
         for s in p.get("splits", []):
-            s["path"] = os.path.basename(os.path.dirname(s["path"])) + "/" + os.path.basename(s["path"])
+            if s.get("path"):
+                s["path"] = os.path.basename(os.path.dirname(s["path"])) + "/" + os.path.basename(s["path"])
     for d in cs.get("disks", {}).values():
         for f in d.get("files", []):
             f.pop("inode", None)
     cs["items"] = [tuple(x for x in it) if not isinstance(it, dict) else it for it in cs.get("items", [])]
     return json.dumps(cs, sort_keys=True, default=lambda o: o.hex() if isinstance(o, (bytes, bytearray)) else str(o))
-
-
-def strip_inodes(txt):
-    return txt
 
 
 def max_info_time(path):
@@ -251,7 +254,7 @@ def write_ndjson(path, events):
 # ---------------------------------------------------------------------------------------
 # scenario definitions
 
-def make_scenarios(seed):
+def make_scenarios(seed, big=True):
     S = []
     kb = 1024
 
@@ -277,10 +280,10 @@ def make_scenarios(seed):
     S.append(Scenario("sync-incr-3d2p-vanish", 3, 2, base2, e2, ["--test-run", "rm -f {root}/d1/h", "sync"],
                       expect_rc=(1,)))
 
-    # S3: forced full sync, 4 disks, 3 parities, 40 stripes
+    # S3: forced full sync, 4 disks, 3 parities, 40 stripes (quick: 20)
     base3 = []
     for d in range(4):
-        for k in range(4):
+        for k in range(4 if big else 2):
             base3.append(("d%d/s%d" % (d + 1, k), rbytes(seed * 100 + 30 + d * 4 + k, 10 * kb - (7 * d + k))))
     S.append(Scenario("sync-full-4d3p", 4, 3, base3, lambda root: None, ["-F", "sync"]))
 
@@ -307,8 +310,9 @@ def model_check(v, tier, cov):
     cfgs = MC_QUICK if tier == "quick" else MC_THOROUGH
     t0 = time.time()
     with ThreadPoolExecutor(max_workers=len(cfgs)) as ex:
-        futs = [(cfg, ex.submit(vlib.run_tlc, "IoRing", cfg, w, None, None, (), None, 3000, "6g", None,
-                                tier == "thorough", True, False, "C13-" + cfg)) for cfg, w in cfgs]
+        futs = [(cfg, ex.submit(lambda cfg=cfg, w=w: vlib.run_tlc(
+            "IoRing", cfg=cfg, workers=w, timeout=3000, xmx="6g", coverage=(tier == "thorough"), tag="C13-" + cfg)))
+            for cfg, w in cfgs]
         results = [(cfg, f.result()) for cfg, f in futs]
     states = trans = 0
     taken = {}
@@ -335,6 +339,18 @@ def model_check(v, tier, cov):
 
 
 def run(tier):
+    """any unexpected exception of the harness is a tool failure (exit 2), never a verdict"""
+    try:
+        return _run(tier)
+    except vlib.ToolFailure:
+        raise
+    except Exception as e:
+        import traceback
+        traceback.print_exc()
+        raise vlib.ToolFailure("C13 harness exception: %r" % (e,))
+
+
+def _run(tier):
     v = vlib.Verdict("C13", tier, "model_checking")
     cov = {"model_configs": [], "samples": [], "exhaustive": True}
     if content_mod is None:
@@ -346,10 +362,18 @@ def run(tier):
     scratch = vlib.scratch_root()
     try:
         # (a) the model, in the background of nothing: run first, it is the long part
-        model_check(v, tier, cov)
+        # (VERIF_C13_PART=traces skips the model, =model skips the traces: development aid only,
+        #  the registered commands never set it)
+        part = os.environ.get("VERIF_C13_PART", "all")
+        if part != "traces":
+            model_check(v, tier, cov)
+        else:
+            cov["states"], cov["transitions"] = 0, 0
+        if part == "model":
+            return v.finish(cov)
 
         # (b)+(c) real runs
-        scenarios = make_scenarios(seed)
+        scenarios = make_scenarios(seed, big=(tier != "quick"))
         pres = {}
         tbase = {}
         for sc in scenarios:
@@ -413,25 +437,57 @@ def run(tier):
         nint = 4 if tier == "quick" else 24
         ijobs = [(scenarios[k % len(scenarios)], [3, 4, 8, 1][k % 4], rnd.randrange(1, 2 ** 31), False) for k in range(nint)]
         with ThreadPoolExecutor(max_workers=4) as ex:
-            iruns = list(ex.map(lambda jk: do_run(jk[1], sigint=0.004 + 0.004 * rnd.random() * (1 + jk[0] % 5), tagx="-int%d" % jk[0]),
+            iruns = list(ex.map(lambda jk: do_run(jk[1], sigint=1000 + 2500 * (jk[0] % 6) + rnd.randrange(2000), tagx="-int%d" % jk[0]),
                                 list(enumerate(ijobs))))
 
-        # termination of the real runs
-        hangs = 0
-        for r, job in list(zip(runs, jobs)) + list(zip(iruns, ijobs)):
+        jobmap = {r["id"]: j for r, j in list(zip(runs, jobs)) + list(zip(iruns, ijobs))}
+        interrupted = set(r["id"] for r in iruns)
+
+        def abnormal(r):
+            """a run that did not end by itself with an exit status of snapraid"""
             if r["timeout"]:
-                r2 = do_run(job, tagx="-again")
-                if r2["timeout"]:
-                    hangs += 1
-                    v.violation("termination: %s does not finish within %d s (twice) with --test-io-cache %d, yield seed %d"
-                                % (r["scenario"], RUN_TIMEOUT, r["cache"], r["yseed"]), r)
-                else:
-                    r.update(r2)
+                return "does not terminate within %d s" % RUN_TIMEOUT
+            if r["rc"] is None or r["rc"] < 0 or r["rc"] >= 126:
+                return "abnormal termination (exit status %s): %s" % (r["rc"], r["out"][-300:].replace("\n", " | "))
+            return None
+
+        def trace_problem(r):
+            """stand-alone check of one recording: None if it is a complete, accepted trace"""
+            ab = abnormal(r)
+            if ab:
+                return ab, None
+            execs = load_trace(r["trace"])
+            if not execs:
+                return ("no trace", None) if r["id"] not in interrupted and "-int" not in r["id"] else (None, None)
+            if any(exn[-1]["k"] not in ("Join", "Stop") for exn in execs):
+                return "trace truncated (rc %s)" % r["rc"], None
+            p2 = os.path.join(tdir, r["id"] + ".sorted.ndjson")
+            for exn in execs:          # one file per execution: the headers may differ
+                write_ndjson(p2, exn)
+                tc = tlc_trace(p2, "C13-trace-re")
+                if not tc.ok:
+                    return describe(tc, tc.line, exn), tc
+            return None, None
+
+        def describe(tc, line, exn):
+            what = ("invariant %s violated in the trace state after record %d" % (tc.invariant, line)) if tc.invariant \
+                else ("record %d is not a step of IoRing" % line)
+            rec = json.dumps(exn[line - 1]) if line and 0 < line <= len(exn) else "?"
+            return what + ": " + rec
+
+        # suspects: (run, description, context) - everything that is not a complete accepted trace
+        suspects = []
+        hangs = 0
+        for r in runs + iruns:
+            ab = abnormal(r)
+            if ab:
+                hangs += 1 if r["timeout"] else 0
+                suspects.append((r, ab, None))
 
         # (c) determinism against the reference
         ndet = 0
         for r in runs:
-            if r["timeout"] or "result" not in r:
+            if abnormal(r) or "result" not in r:
                 continue
             ref, got = refs[r["scenario"]], r["result"]
             diffs = [k for k in ("rc", "parity", "content", "tags", "copies_equal") if ref[k] != got[k]]
@@ -446,29 +502,34 @@ def run(tier):
         nevents = 0
         early = 0
         for r in runs + iruns:
-            if r["timeout"]:
+            if abnormal(r):
                 continue
             execs = load_trace(r["trace"])
+            if not execs and r["id"] in interrupted:
+                continue           # interrupted before io_start
             if not execs:
                 raise vlib.ToolFailure("run %s produced no trace (hook H1 not active in %s?)" % (r["id"], binary))
+            if any(exn[-1]["k"] not in ("Join", "Stop") for exn in execs):
+                suspects.append((r, "trace truncated (rc %s)" % r["rc"], None))
+                continue
             for exn in execs:
                 nevents += len(exn)
-                if exn[-1]["k"] not in ("Join", "Stop"):
-                    raise vlib.ToolFailure("trace of %s is truncated" % r["id"])
                 stopped = [e for e in exn if e["k"] == "ReadNext"]
                 if stopped and (stopped[-1].get("cp", stopped[-1]["pos"]) < exn[0]["bm"]):
                     early += 1
                 groups.setdefault(group_key(exn), []).append((r, exn))
 
         def check_group(item):
+            """returns (number accepted, list of failing (run, description, context))"""
             gi, (key, members) = item
-            """returns (number accepted, list of (run, TraceCheck)) - failing executions are re-recorded"""
             members = list(members)
             accepted, failed = 0, []
             while members:
                 path = os.path.join(tdir, "group%03d.ndjson" % gi)
                 write_ndjson(path, [e for _, exn in members for e in exn])
                 tc = tlc_trace(path, "C13-trace-g%d" % gi)
+                if os.environ.get("VERIF_C13_DEBUG"):
+                    print("    group %d: %d executions %d records %.1fs ok=%s" % (gi, len(members), sum(len(x) for _, x in members), tc.wall, tc.ok))
                 if tc.ok:
                     accepted += len(members)
                     break
@@ -478,45 +539,49 @@ def run(tier):
                     off += len(members[k][1])
                     k += 1
                 accepted += k
-                failed.append((members[k][0], tc, line - off, members[k][1]))
+                r, exn = members[k]
+                line -= off
+                failed.append((r, describe(tc, line, exn),
+                               {"header": exn[0], "rejected_at": line, "invariant": tc.invariant,
+                                "records_before": exn[max(0, line - 8):line + 1], "tlc": tc.out[-3000:]}))
                 members = members[k + 1:]
-                if len(failed) >= 3:
-                    break          # enough evidence for this group; the rest is not counted as validated
+                if len(failed) >= 2:
+                    break          # enough for this group; the rest is not counted as validated
             return accepted, failed
 
-        with ThreadPoolExecutor(max_workers=8) as ex:
+        with ThreadPoolExecutor(max_workers=5) as ex:
             gres = list(ex.map(check_group, list(enumerate(groups.items()))))
         validated = sum(a for a, _ in gres)
-        rejected = 0
-        jobmap = {r["id"]: j for r, j in list(zip(runs, jobs)) + list(zip(iruns, ijobs))}
         for _, failed in gres:
-            for r, tc, line, exn in failed:
-                # second recording of the same scenario / cache / seed
-                confirmed = None
-                for attempt in range(2):
-                    r2 = do_run(jobmap[r["id"]], tagx="-re%d" % attempt)
-                    if r2["timeout"]:
-                        confirmed = ("hang", None)
-                        break
-                    ex2 = load_trace(r2["trace"])
-                    p2 = os.path.join(tdir, r2["id"] + ".sorted.ndjson")
-                    write_ndjson(p2, [e for exn2 in ex2 for e in exn2])
-                    tc2 = tlc_trace(p2, "C13-trace-re")
-                    if not tc2.ok:
-                        confirmed = (tc2, ex2)
-                        break
-                what = ("invariant %s violated in the trace state after record %d" % (tc.invariant, line)) if tc.invariant \
-                    else ("record %d is not a step of IoRing" % line)
-                ctx = exn[max(0, line - 6):line + 1]
-                if confirmed:
+            suspects.extend(failed)
+
+        # a suspect is reported only if a second recording of the same scenario / cache / seed fails too
+        rejected = 0
+        MAXS = 6
+        if len(suspects) > MAXS:
+            print("  note: %d suspect recordings, only the first %d are re-recorded" % (len(suspects), MAXS))
+
+        def confirm(sus):
+            r, what, ctx = sus
+            for attempt in range(2):
+                r2 = do_run(jobmap[r["id"]], tagx="-re%d" % attempt,
+                            sigint=None)
+                prob, tc2 = trace_problem(r2)
+                if prob:
+                    return sus, prob, r2
+            return sus, None, None
+        with ThreadPoolExecutor(max_workers=3) as ex:
+            for (r, what, ctx), prob2, r2 in ex.map(confirm, suspects[:MAXS]):
+                if prob2:
                     rejected += 1
-                    v.violation("trace of %s (--test-io-cache %d, yield %d) rejected by IoRingTrace: %s: %s (and again on a second recording)"
-                                % (r["scenario"], r["cache"], r["yseed"], what, json.dumps(exn[line - 1]) if 0 < line <= len(exn) else "?"),
-                                {"run": r, "header": exn[0], "rejected_at": line, "invariant": tc.invariant,
-                                 "records_before": ctx, "tlc": tc.out[-3000:]})
+                    kind = "termination" if r["timeout"] else "trace"
+                    v.violation("%s: %s with --test-io-cache %d, yield seed %d%s: %s  [second recording: %s]"
+                                % (kind, r["scenario"], r["cache"], r["yseed"], " (signal outside)" if r["outside"] else "",
+                                   what, prob2),
+                                {"run": r, "what": what, "context": ctx, "second_recording": {"what": prob2, "run": r2}})
                 else:
-                    print("  note: trace %s rejected once (%s) but two further recordings were accepted; not reported" % (r["id"], what))
-                    cov.setdefault("unconfirmed_rejections", []).append({"run": r["id"], "what": what})
+                    print("  note: %s: %s - but two further recordings were complete and accepted; not reported" % (r["id"], what))
+                    cov.setdefault("unconfirmed_suspects", []).append({"run": r["id"], "what": what})
 
         # (d) self-test of the binding on one accepted threaded sync trace
         selftest = []
@@ -581,7 +646,7 @@ def run(tier):
                     "yield_seeds_per_cache": nseeds})
         print("  traces: %d executions validated (%d events, %d TLC batches), %d determinism comparisons, %d early stops, self-test %s"
               % (validated, nevents, len(groups), ndet, early, [s["rejected"] for s in selftest]))
-        if not v.violations and validated < len(runs):
+        if not v.violations and not cov.get("unconfirmed_suspects") and validated < len(runs):
             raise vlib.ToolFailure("only %d of %d traces validated" % (validated, len(runs)))
         return v.finish(cov, assumptions=[
             "io_mutex is represented by the atomicity of the IoRing actions (each = the code between lock and unlock/cond_wait)",
